@@ -172,3 +172,28 @@ def validate(hists, transport, wd, tag):
         acc += hi
         pending = pending[hi + 1:]
     return acc, rejected, nlines, runs
+
+
+def selftest(hists, transport, wd):
+    """The binding of the hook traces demonstrated: the first accepted history that has an outstanding request at some line is
+    corrupted in one INTERNAL field of that line (position in the schedule, last transmission instant, a cancellation flag) and
+    TLC must reject it at that line.  Returns the list of corruptions tried; raises ToolError if one is still accepted."""
+    done = []
+    for k, lines in hists:
+        i = next((j for j, ln in enumerate(lines) if ln.get("post", {}).get("out")), None)
+        if i is None:
+            continue
+        for field, f in (("idx", lambda v: v + 1), ("lastSend", lambda v: v + 1), ("sc", lambda v: not v)):
+            mutated = json.loads(json.dumps(lines))
+            o = mutated[i]["post"]["out"][0]
+            o[field] = f(o[field])
+            acc, rejected, nlines, runs = validate([(k, mutated)], transport, wd, "selftest")
+            at = None
+            if rejected:
+                at = next((j for j, ln in enumerate(mutated) if ln == rejected[0][1]), None)
+            ok = bool(rejected) and at == i
+            done.append({"field": field, "line": i + 1, "rejected_at_line": None if at is None else at + 1, "ok": ok})
+            if not ok:
+                raise ToolError("binding self-test: StunAgentHookTrace accepted (or rejected elsewhere) a trace whose recorded %s was changed at line %d" % (field, i + 1))
+        break
+    return done
